@@ -51,6 +51,10 @@ RULE = (
     "element's tick; empty input without default gives an error of TYPE SequenceContainsNoElementsError at the completion tick "
     "for every aggregate without a default (reduce without seed, average with and without key mapper, min, max with and "
     "without comparer, first, last, single with and without predicate); a source error passes through at its tick unless the result was decided earlier. "
+    "to_dict is also run with raising mappers (key mapper raises 'kf', element mapper raises 'ef' on generated hash classes "
+    "of the element, frequently both on the same element): as in {key(x): elem(x) for x in xs} the key is evaluated before "
+    "the value, so the sequence must end at the first faulting element's tick with the key mapper's exception when it "
+    "raises, else the element mapper's (how often the other mapper is called is not judged). "
     "sequence_equal's decision is computed over the merged event order of both timelines; for events of the two "
     "sequences at the same tick both consistent orders (first-before-second, second-before-first) are accepted. "
     "Non-trivial: a value was expected and differs from the input list, or a boundary class (b:*: empty input, default or "
@@ -62,7 +66,7 @@ RULE = (
     "Distinct = distinct case JSON."
 )
 ASSUMPTIONS = [
-    "user callbacks are total pure functions; equality comparers are symmetric equivalence relations except the asymmetric one used for contains (argument order element, value grounded in the docstring example and Rx.NET); distinct / distinct_until_changed (C05) and sequence_equal keep symmetric comparers because no docstring or test fixes their argument order; ordering comparers are subtraction of total integer keys",
+    "user callbacks are total pure functions except the raising mappers of the to_dict_faulty form; equality comparers are symmetric equivalence relations except the asymmetric one used for contains (argument order element, value grounded in the docstring example and Rx.NET); distinct / distinct_until_changed (C05) and sequence_equal keep symmetric comparers because no docstring or test fixes their argument order; ordering comparers are subtraction of total integer keys",
     "hot sources: events at or before the subscription tick are not part of the input",
     "an iterable second sequence of sequence_equal is delivered at the subscription tick",
     "single on a second element may fail with any operator-created exception",
@@ -93,6 +97,7 @@ _W = [
     ("to_set", 1),
     ("to_dict", 1),
     ("to_dict_element", 1),
+    ("to_dict_faulty", 2),
     ("first", 1),
     ("first_pred", 1),
     ("first_or_default", 5),
@@ -142,6 +147,28 @@ def _asym(spec, swapped=False):
     if swapped:
         return lambda v, e: k(e) < k(v)
     return lambda e, v: k(e) < k(v)
+
+
+def _faulty_mappers(a):
+    """to_dict_faulty: key mapper raises Tagged("kf") and element mapper raises Tagged("ef") on hash classes of x."""
+    from vlib.lab import hpred
+    from vlib.values import Tagged
+
+    key = hkey(a["key"]["m"])
+    kbad = hpred(a["fm"], a["kr"])
+    ebad = hpred(a["fm"], a["er"])
+
+    def key_mapper(x):
+        if kbad(x):
+            raise Tagged("kf")
+        return key(x)
+
+    def element_mapper(x):
+        if ebad(x):
+            raise Tagged("ef")
+        return ("m", x)
+
+    return key_mapper, (element_mapper if a["elem"] else None), kbad, ebad
 
 
 def _rank(spec):
@@ -204,6 +231,9 @@ def _build(lab, form, a, second):
         return ops.to_dict(mk_key(a["key"]))
     if form == "to_dict_element":
         return ops.to_dict(mk_key(a["key"]), mk_map("tag"))
+    if form == "to_dict_faulty":
+        km, em, _, _ = _faulty_mappers(a)
+        return ops.to_dict(km, em) if em is not None else ops.to_dict(km)
     if form == "first":
         return ops.first()
     if form == "first_pred":
@@ -389,6 +419,22 @@ def _oracle(form, a, E, term, S, second):
         if len(d) < n:
             cls.append("b:duplicate-keys")
         exp = agg(d)
+    elif form == "to_dict_faulty":
+        # reference {key_mapper(x): element_mapper(x) for x in xs}: per element the key expression is evaluated before
+        # the value expression, and the first exception ends the computation (here: the sequence, at that element's tick)
+        km, em, kbad, ebad = _faulty_mappers(a)
+        d = {}
+        exp = None
+        for t, x in zip(ts, xs):
+            kf = bool(kbad(x))
+            ef = em is not None and bool(ebad(x))
+            if kf or ef:
+                cls.append("b:both-mappers-raise-same-element" if kf and ef else ("b:key-mapper-raises" if kf else "b:element-mapper-raises"))
+                exp = [(t, "E", ["exc", "kf" if kf else "ef"])]
+                break
+            d[km(x)] = em(x) if em is not None else x
+        if exp is None:
+            exp = agg(d)
     elif form in ("first", "first_pred", "first_or_default"):
         ok = passing(a.get("p"))
         if ok:
@@ -522,6 +568,12 @@ def _args(draw, form):
         return {"key": "ident"}
     if form in ("min_by_comparer", "max_by_comparer"):
         return {"key": {"m": draw(st.integers(2, 7))}, "cmp": draw(st.sampled_from([None, "neg", {"m": 3}]))}
+    if form == "to_dict_faulty":
+        fm = draw(st.integers(2, 6))
+        res = st.lists(st.integers(0, fm - 1), min_size=draw(st.integers(0, 1)), max_size=2, unique=True)
+        kr = sorted(draw(res))
+        er = kr if draw(st.integers(0, 2)) == 0 else sorted(draw(res))  # same classes: both mappers raise on the same element
+        return {"key": {"m": draw(st.integers(2, 5))}, "elem": draw(st.sampled_from([True, True, True, False])), "fm": fm, "kr": kr, "er": er}
     if form in ("to_dict", "to_dict_element"):
         return {"key": draw(st.sampled_from(["ident", {"m": 2}, {"m": 3}, {"m": 5}]))}
     if form == "contains":
